@@ -28,6 +28,9 @@ RET_TY = {"unit": None, "i64": "i64", "cstruct": "Pt", "slice": "&[u8]", "mutsli
 
 for _k, (_b, _t) in SPELLED_RET.items():
     RET_TY[_k] = _t
+# a one-parameter alias named like the int_result identifier (declared inside the definition's module)
+RET_TY["res1"] = "Result<u64>"
+RES1_ALIAS = "    pub type Result<T> = core::result::Result<T, NegErr>;\n"
 
 # callee: compute digest `d` of the received argument, log it (and its address), write through &mut shapes
 ARG_BODY = {
@@ -64,6 +67,8 @@ THIS_MUT = {"mut": "self", "pinmut": "self.get_mut()"}
 
 
 def ret_expr(ret, recv):
+    if ret == "res1":
+        return ret_expr("resneg", recv)
     if ret in SPELLED_RET:
         return ret_expr(SPELLED_RET[ret][0], recv)
     tr = THIS_REF.get(recv, "self")
@@ -111,6 +116,7 @@ RET_DIGEST = {
 
 for _k, (_b, _t) in SPELLED_RET.items():
     RET_DIGEST[_k] = RET_DIGEST[_b]
+RET_DIGEST["res1"] = RET_DIGEST["resneg"]
 
 # caller: argument set-up for variant v (0/1): declares locals, `sent_d` (digest), `sent_addr` (0 if n/a), the
 # expression to pass, and a post-check expression producing Vec<i64> `post` (state of what the callee may write)
@@ -250,7 +256,8 @@ def render_trait(k, d):
     ir = "    #[int_result]\n" if d["ir"] else ""
     fw = "    #[cglue_forward]\n" if forwardable(d) else ""
     at = "        type Item;\n" if uses_assoc(d) else ""
-    return "    #[cglue_trait]\n%s%s    pub trait T {\n%s        %s;\n    }\n" % (fw, ir, at, sig), sig
+    alias = RES1_ALIAS if d["ret"] == "res1" else ""
+    return "%s    #[cglue_trait]\n%s%s    pub trait T {\n%s        %s;\n    }\n" % (alias, fw, ir, at, sig), sig
 
 
 def method_impl(d, sig, salt=0):
